@@ -45,13 +45,10 @@ Definition sound_at (s : site) (md : mode) (t : rty) : bool :=
   | Some text => kf_C05 s md [] t || c05_ok s md [] t text
   | None => false
   end.
-(* inside a class that is specific to the site (everything but the two parser classes, whose damage
-   can sit in a discarded Err argument) the specification rejects what the model prints *)
-Definition site_classes := [KUnionUnderSeq; KPrefixComposite; KPrefixUnqualified; KZodOptional; KZodSet; KZodResult].
+(* inside a class the specification rejects what the model prints (the classes are exact) *)
 Definition exact_at (s : site) (md : mode) (t : rty) : bool :=
-  if kf_result_ok_has_comma t || kf_tuple_elem_has_comma t then true else
   match emit_type s md [] t with
-  | Some text => negb (existsb (fun k => in_class k s md [] t) site_classes && c05_ok s md [] t text)
+  | Some text => negb (kf_C05 s md [] t && c05_ok s md [] t text)
   | None => false
   end.
 Definition sweep (f : site -> mode -> rty -> bool) (l : list rty) : bool :=
